@@ -14,8 +14,9 @@
                            dtype of a, e float): neither loop of the code is entered at this order
      rlevinson_ir_tie_le1  hence, for a reflexive [feq], the boolean [tie_rlevinson] of the exact tie is true on every input of
                            length <= 2
-   NOT PROVED: orders >= 2 (the step-down loop with the embedded levdown, the column stores U[:, k] and the R recursion over the
-   columns of U): exact evaluation only (tools/props/_loopir.py, gen_rlevinson: run = model, zero tolerance, every entry). *)
+   NOT PROVED IN THIS FILE: orders >= 2 (the step-down loop with the embedded levdown, the column stores U[:, k] and the R recursion over the
+   columns of U).  T9: they ARE proved, for all inputs, in Proofs/LoopIRRlevinsonAll.v (rlevinson_ir_run, rlevinson_ir_tie), which imports this
+   file, reuses the three short-input theorems below and decomposes the same program text [prog_rlevinson_gen0]. *)
 From Coq Require Import String ZArith List Lia Bool.
 Require Import Spectrum.Theory.Ops Spectrum.Theory.Sum Spectrum.Theory.Vec Spectrum.Model.LoopIR Spectrum.Model.Levinson
                Spectrum.Model.LinPred Spectrum.Model.LoopIRTie Spectrum.Model.LoopIRRlev Spectrum.Proofs.LoopIRLevinson.
